@@ -378,10 +378,15 @@ class TupleOf(Shape):
 
 
 class FixedList(Shape):
-    """Python list of concrete length n."""
+    """Python list of concrete length n (elem: one shape for all positions, or a list of per-position shapes)."""
 
-    def __init__(self, elem, n, np=False):
-        self.elem, self.n, self.np = elem, n, np
+    def __init__(self, elem, n=None, np=False):
+        if isinstance(elem, (list, tuple)):
+            self.elems = list(elem)
+            n = len(self.elems)
+        else:
+            self.elems = [elem] * n
+        self.elem, self.n, self.np = self.elems[0] if self.elems else None, n, np
 
 
 class ListOf(Shape):
@@ -432,7 +437,7 @@ def fresh(shape, name, wf):
     if isinstance(shape, TupleOf):
         return tuple(fresh(e, f"{name}.{k}", wf) for k, e in enumerate(shape.elems))
     if isinstance(shape, FixedList):
-        return PyList([fresh(shape.elem, f"{name}[{k}]", wf) for k in range(shape.n)], np=shape.np)
+        return PyList([fresh(shape.elems[k], f"{name}[{k}]", wf) for k in range(shape.n)], np=shape.np)
     if isinstance(shape, ListOf):
         n = shape.length if shape.length is not None else z3.Int(uid(name + ".len"))
         if shape.length is None:
@@ -474,7 +479,7 @@ def fresh_getter(elem, name, wf):
         gs = [fresh_getter(e, f"{name}.{k}", wf) for k, e in enumerate(elem.elems)]
         return lambda i: tuple(g(i) for g in gs)
     if isinstance(elem, FixedList):
-        gs = [fresh_getter(elem.elem, f"{name}.{k}", wf) for k in range(elem.n)]
+        gs = [fresh_getter(elem.elems[k], f"{name}.{k}", wf) for k in range(elem.n)]
         return lambda i: PyList([g(i) for g in gs])
     if isinstance(elem, OpaqueOf):
         gs = {k: fresh_getter(s, f"{name}.{k}", wf) for k, s in elem.attrs.items()}
